@@ -41,7 +41,26 @@ func genHistory(t *rapid.T) []stack.Op {
 	nsess := 0
 	cp := uint64(0x1000)
 	associated := []int{0}
+	// one history in three lets the nodes choose equal CP SEIDs (unique per node only)
+	sharedCP := rapid.IntRange(0, 2).Draw(t, "sharedcp") == 0
+	cpOf := map[int]uint64{}
 	var sessNode []int
+	// scripted core (one history in four): two nodes, one session each with one and the same CP SEID, and the node whose
+	// session comes later in the table lets go of it by a SEID-0 answer - ownership can then only be told by the peer address
+	if rapid.IntRange(0, 3).Draw(t, "core") == 0 {
+		a, b := 0, 1
+		if rapid.Bool().Draw(t, "swap") {
+			a, b = 1, 0
+		}
+		ops = append(ops, stack.Op{Kind: "assoc", Peer: 1, Node: 1, Sess: -1})
+		associated = append(associated, 1)
+		for _, nd := range []int{a, b} {
+			ops = append(ops, stack.Op{Kind: "est", Peer: nd, Node: nd, Sess: -1, CP: 0x3001, Rules: g.GenRules(t, true)})
+			sessNode = append(sessNode, nd)
+			nsess++
+		}
+		ops = append(ops, stack.Op{Kind: "report", Sess: 1, URRs: []uint32{1}, Trig: 2}, stack.Op{Kind: "rsp", Peer: -2, Sess: 1, SEID0: true})
+	}
 	for i := 0; i < n; i++ {
 		k := rapid.SampledFrom([]string{"assoc", "est", "est", "est", "mod", "mod", "mod", "mod", "mod", "modnode", "del", "report", "rsp0", "rsp", "moddead"}).Draw(t, "op")
 		switch k {
@@ -55,7 +74,12 @@ func genHistory(t *rapid.T) []stack.Op {
 				nd = rapid.IntRange(0, 2).Draw(t, "node2")
 			}
 			cp++
-			ops = append(ops, stack.Op{Kind: "est", Peer: nd, Node: nd, Sess: -1, CP: cp, Rules: g.GenRules(t, true)})
+			use := cp
+			if sharedCP {
+				cpOf[nd]++
+				use = 0x2000 + cpOf[nd]
+			}
+			ops = append(ops, stack.Op{Kind: "est", Peer: nd, Node: nd, Sess: -1, CP: use, Rules: g.GenRules(t, true)})
 			sessNode = append(sessNode, nd)
 			nsess++
 		case "modnode":
